@@ -150,6 +150,11 @@ EXTRA = [
     ("field_fn_same_parameter_names_other_types", 'print "@@RUN@@"\nclass Hh {\n  cb: fn(int) -> int\n  constructor(self) {\n    self.cb = fn(x: int) -> int {\n      return x\n    }\n  }\n}\nh = Hh()\nh.cb = fn(x: str) -> int {\n  return x.len()\n}\n'),
     ("optional_index_into_str", 'print "@@RUN@@"\npick: int? = nil\ns = "abc"\nprint s[pick]\n'),
     ("optional_bigint_index_into_list", 'print "@@RUN@@"\npick: bigint? = B1\nl: [int...] = [4, 5]\nprint l[pick]\n'),
+    # unpacking over names that already exist
+    ("unpack_over_existing_second_name_other_type_in_block", 'print "@@RUN@@"\nlabel = "neutral"\nweight = 1\nif weight > 0 {\n  [label, weight] = ["positive", "heavy"]\n}\nprint weight * 2 - 1\n'),
+    ("unpack_over_existing_first_name_other_type_in_block", 'print "@@RUN@@"\nlabel = "neutral"\nweight = 1\nif weight > 0 {\n  [weight, label] = ["heavy", "positive"]\n}\nprint weight * 2 - 1\n'),
+    ("unpack_over_existing_third_name_other_type_in_function", 'print "@@RUN@@"\nf = fn() -> int {\n  a = 1\n  b = 2\n  c = 3\n  while a < 2 {\n    [a, b, c] = [5, 6, "x"]\n  }\n  return c * 2\n}\nprint f()\n'),
+    ("unpack_over_existing_same_scope_other_type", 'print "@@RUN@@"\nlabel = "neutral"\nweight = 1\n[label, weight] = ["positive", "heavy"]\nprint weight * 2 - 1\n'),
     ("missing_return_path", 'print "@@RUN@@"\nf = fn(a: int) -> int {\n  if a > 1 {\n    return 1\n  }\n}\nprint f(1)\n'),
     ("missing_return_entirely", 'print "@@RUN@@"\nf = fn(a: int) -> int {\n  print a\n}\nprint f(1)\n'),
     ("void_function_returns_value", 'print "@@RUN@@"\nf = fn(a: int) {\n  return a\n}\nf(1)\n'),
